@@ -501,6 +501,7 @@ func (r *Router) appendRoute(route *Route) {
 	route.goodInfo()
 	// format path and append group info
 	r.appendGroupInfo(route)
+	verifRegistered(r, route)
 	// print debug info
 	debugPrintRoute(route)
 
